@@ -188,8 +188,9 @@ def run(ctx: core.Ctx):
     for i in bad["add_model_ok"]:
         ctx.mismatch("ResultSet.add_result vs Model.ResultSet.add_result", f"add_result differs on case {i}", {"case": add_cases[i]})
 
-    from harness import c12_readers
+    from harness import c12_e2e, c12_readers
     c12_readers.run(ctx)
+    c12_e2e.run(ctx)
 
 
 def replay(ctx, body):
